@@ -1032,6 +1032,10 @@ class Evaluator:
             return args[0]
         if name in ("unwrap_or", "unwrap_or_else", "unwrap", "expect", "unwrap_or_default") and recv is not None and rty.startswith("std::result::Result") and not (not is_form(recv) and recv[0] in ("err", "none", "some")):
             return recv  # a Result is represented by its Ok payload
+        if name == "then_some" and rty == "bool" and len(args) == 1:
+            if recv is not None and not is_form(recv) and recv[0] == "bool":
+                return ("some", args[0]) if recv[1] else ("none",)
+            return ("if", ("some", args[0]), ("none",))  # `cond.then_some(v)` is `if cond { Some(v) } else { None }`
         if name == "rev" and recv is not None and not is_form(recv) and recv[0] == "tup" and "Iterator" not in rty and not rty.startswith("("):
             return ("tup", list(reversed(recv[1])))
         if name == "rev" and recv is not None and not is_form(recv) and recv[0] == "tup" and ("Iter" in rty or "iter" in rty):
